@@ -54,6 +54,7 @@ type cVar struct {
 	RH    bool   `json:"rh"`   // a custom ReturnHandler is mapped in the injector: it replaces the default table
 	Der   bool   `json:"der"`  // "C" installs a derived request context first and cancels that one
 	WK    int    `json:"wk"`   // how "W" touches the response: 0 always WriteHeader(200+h); else per handler WriteHeader / Write(bytes) / Write(nil) / Flush() / io.Copy
+	Form  int    `json:"form"` // > 0: handlers whose program needs no Context are declared without one (net/http forms, func() T)
 	DL    bool   `json:"dl"`   // ... and that derived context ends by an expired deadline (the timeout-middleware case) rather than by cancel()
 }
 
@@ -336,6 +337,20 @@ func (x *chainExec) handler(h int) flamego.Handler {
 		})
 	}
 	noCtx := len(p.Ops) == 0
+	onlyP := len(p.Ops) == 1 && p.Ops[0] == "P"
+	// Forms that take no Context (the body of such a program needs none): the plain net/http forms for handlers without
+	// a result, and the parameterless form func() T for every result shape. Any of them may have a fast path of its own.
+	if x.v.Form > 0 && (noCtx || onlyP) && r.Shape == "none" {
+		if alt {
+			return http.HandlerFunc(func(http.ResponseWriter, *http.Request) { x.run(h, nil) })
+		}
+		return func(http.ResponseWriter, *http.Request) { x.run(h, nil) }
+	}
+	if x.v.Form > 0 && noCtx && r.Shape != "none" && r.Shape != "int_string" {
+		if f := x.noArgForm(h, r, s, alt); f != nil {
+			return f
+		}
+	}
 	switch r.Shape {
 	case "none":
 		if x.v.Fast == 2 {
@@ -424,6 +439,58 @@ func (x *chainExec) handler(h int) flamego.Handler {
 	panic("unknown shape " + r.Shape)
 }
 
+// noArgForm builds func() T for the result shape (exactly that function type, as a user would declare it).
+func (x *chainExec) noArgForm(h int, r cRet, s string, alt bool) flamego.Handler {
+	errT := reflect.TypeOf((*error)(nil)).Elem()
+	var out []reflect.Type
+	strT, bytT, intT := reflect.TypeOf(""), reflect.TypeOf([]byte(nil)), reflect.TypeOf(0)
+	bytesVal := func() reflect.Value {
+		if s == "" && !alt {
+			return reflect.Zero(bytT)
+		}
+		return reflect.ValueOf([]byte(s))
+	}
+	errVal := func() reflect.Value {
+		if e := mkErr(decBytes(r.Err), alt); e != nil {
+			return reflect.ValueOf(&e).Elem()
+		}
+		return reflect.Zero(errT)
+	}
+	var vals func() []reflect.Value
+	switch r.Shape {
+	case "string":
+		out, vals = []reflect.Type{strT}, func() []reflect.Value { return []reflect.Value{reflect.ValueOf(s)} }
+	case "bytes":
+		out, vals = []reflect.Type{bytT}, func() []reflect.Value { return []reflect.Value{bytesVal()} }
+	case "error":
+		out, vals = []reflect.Type{errT}, func() []reflect.Value { return []reflect.Value{errVal()} }
+	case "int_bytes":
+		out, vals = []reflect.Type{intT, bytT}, func() []reflect.Value { return []reflect.Value{reflect.ValueOf(r.Code), reflect.ValueOf([]byte(s))} }
+	case "int_error":
+		out, vals = []reflect.Type{intT, errT}, func() []reflect.Value { return []reflect.Value{reflect.ValueOf(r.Code), errVal()} }
+	case "string_error":
+		out, vals = []reflect.Type{strT, errT}, func() []reflect.Value { return []reflect.Value{reflect.ValueOf(s), errVal()} }
+	case "bytes_error":
+		out, vals = []reflect.Type{bytT, errT}, func() []reflect.Value { return []reflect.Value{reflect.ValueOf([]byte(s)), errVal()} }
+	default:
+		return nil
+	}
+	zero := func() []reflect.Value {
+		z := make([]reflect.Value, len(out))
+		for i, t := range out {
+			z[i] = reflect.Zero(t)
+		}
+		return z
+	}
+	twoVal := len(out) == 2 && out[0] == intT
+	return reflect.MakeFunc(reflect.FuncOf(nil, out, false), func([]reflect.Value) []reflect.Value {
+		if !x.run(h, nil) && !twoVal {
+			return zero()
+		}
+		return vals()
+	}).Interface()
+}
+
 type ctxWrap struct {
 	flamego.Context
 	x      *chainExec
@@ -445,6 +512,7 @@ func chainVarFor(c *chainCase, idx int) cVar {
 	v.Der = rng.Intn(2) == 0
 	v.DL = v.Der && rng.Intn(2) == 0
 	v.WK = rng.Intn(6)
+	v.Form = rng.Intn(2)
 	v.RH = rng.Intn(5) == 0
 	v.Meth = []string{"GET", "GET", "HEAD", "POST"}[rng.Intn(4)]
 	v.HS = rng.Intn(3) == 0
